@@ -5001,6 +5001,11 @@ class TLSConnection(TLSRecordLayer):
                     AlertDescription.internal_error,
                     str(alert)):
                 yield result
+        except TLSInsufficientSecurity as alert:
+            for result in self._sendError(
+                    AlertDescription.insufficient_security,
+                    str(alert)):
+                yield result
 
         # Send ServerHello[, Certificate], ServerKeyExchange,
         # ServerHelloDone
